@@ -1,5 +1,5 @@
 (* RawKV/ProofsTop.v — the statements of Props.v, proved from the lemmas of the Proofs files. *)
-From Verif Require Import RawKV.Model RawKV.ProofsStore RawKV.ProofsLoops RawKV.ProofsBatch RawKV.ProofsRounds RawKV.ProofsCas.
+From Verif Require Import RawKV.Model RawKV.ProofsStore RawKV.ProofsLoops RawKV.ProofsBatch RawKV.ProofsRounds RawKV.ProofsCas RawKV.ProofsWire.
 
 Lemma filter_length_le {A} (f : A -> bool) l : (length (filter f l) <= length l)%nat.
 Proof. induction l as [|x r IH]; cbn [filter length]; [lia|]. destruct (f x); cbn [length]; lia. Qed.
@@ -187,3 +187,41 @@ Qed.
 Lemma c11_atomic_mode : forall st k prev nv,
   client_cas false st k prev nv = None /\ client_cas true st k prev nv = Some (spec_cas st k prev nv).
 Proof. intros. split; [reflexivity|]. cbn [client_cas]. rewrite cas_correct. reflexivity. Qed.
+
+(* error path and degenerate ranges of Scan / ReverseScan / DeleteRange / Checksum: no request is sent *)
+Lemma c11_scan_edge_cases :
+  (forall st Ls s e limit, client_scan st Ls s e limit = None <-> max_raw_kv_scan_limit < N.of_nat limit) /\
+  (forall st Ls s e limit, client_rscan st Ls s e limit = None <-> max_raw_kv_scan_limit < N.of_nat limit) /\
+  (forall st Ls s e, scan st Ls s e 0 = Some [] /\ rscan st Ls s e 0 = Some []) /\
+  (forall digest st Ls s e limit, e <> [] -> ~ klt s e ->
+     scan st Ls s e limit = Some [] /\ drange_loop st Ls s e = Some st /\ cksum digest st Ls s e = Some cks_zero) /\
+  (forall st Ls s e limit, ~ klt e s -> rscan st Ls s e limit = Some []).
+Proof.
+  split; [|split; [|split; [|split]]].
+  - intros. unfold client_scan, scan_limit_ok. destruct (N.of_nat limit <=? max_raw_kv_scan_limit) eqn:E.
+    + split; [discriminate|]. apply N.leb_le in E. lia.
+    + split; [|reflexivity]. intros _. apply N.leb_gt in E. exact E.
+  - intros. unfold client_rscan, scan_limit_ok. destruct (N.of_nat limit <=? max_raw_kv_scan_limit) eqn:E.
+    + split; [discriminate|]. apply N.leb_le in E. lia.
+    + split; [|reflexivity]. intros _. apply N.leb_gt in E. exact E.
+  - intros. unfold scan, rscan. destruct Ls; cbn; split; reflexivity.
+  - intros digest st Ls s e limit He Hse.
+    assert (B : below s e = false).
+    { unfold below. destruct (is_nil e) eqn:E1; [breflect; congruence|]. cbn [orb]. apply ltb_false. exact Hse. }
+    unfold scan, cksum. destruct Ls; cbn [scan_loop drange_loop cksum_loop]; rewrite B, ?andb_false_r; repeat split; reflexivity.
+  - intros st Ls s e limit Hes. unfold rscan.
+    assert (B : lex_ltb e s = false) by (apply ltb_false; exact Hes).
+    destruct Ls; cbn [rscan_loop]; rewrite B, andb_false_r; reflexivity.
+Qed.
+
+(* the request stream of BatchPutWithTTL *)
+Lemma c11_batch_put_wire :
+  (forall kvs ks, append_batches kvs ks = map (batch3_of kvs) (put_chunks kvs ks)) /\
+  (forall kvs ks,
+     flat_map triples (append_batches kvs ks) = map (fun k => (k, kv_of kvs k, ttl_of kvs k)) ks /\
+     Forall (fun b => length (b_vals b) = length (b_keys b) /\ length (b_ttls b) = length (b_keys b)) (append_batches kvs ks)) /\
+  (forall kvs bs,
+     flat_map (fun ks => triples (batch3_of kvs ks)) bs = map (fun k => (k, kv_of kvs k, ttl_of kvs k)) (concat bs)).
+Proof.
+  split; [exact append_batches_spec|]. split; [exact append_batches_triples|exact triples_any_partition].
+Qed.
